@@ -59,8 +59,16 @@ def check(chk):
         or any(isinstance(n, ast.Return) and src(n.value) == 'cql_quote(val)' for n in body_walk(ceo))
     sites = [n for qn, f in enc.functions() for n in body_walk(f, nested=True) if isinstance(n, ast.Call) and src(n.func) == 'self.mapping.get'
              and len(n.args) == 2 and src(n.args[1]) == 'self.cql_encode_object' and src(n.args[0]).startswith('type(')]
+    # the general form: the fallback walks the value's class hierarchy and uses the encoder of the closest supported base, so that a
+    # subclass of *any* supported type (bytes, float, datetime ...) is encoded like its base and never through str()
+    mro_walk = [lp for lp in body_walk(ceo) if isinstance(lp, ast.For) and '__mro__' in src(lp.iter) and
+                any(isinstance(x, ast.Call) and src(x.func) == 'self.mapping.get' for x in ast.walk(lp)) and any(isinstance(x, ast.Return) for x in ast.walk(lp))]
+    aware = aware or bool(mro_walk)
     if len(sites) < 6:
         raise AnalysisError('type-dispatch sites not found (%d)' % len(sites))
+    chk.judge(bool(mro_walk), 'C29.quote', ceo, 'the dispatch fallback encodes a subclass of a supported type with the encoder of that base (walk over type(val).__mro__)',
+              'the fallback only special-cases str: a subclass of bytes is substituted as b\'..\' (an identifier followed by a string), a subclass of datetime as a bare '
+              '2020-01-01 00:00:00, a subclass of float as inf - none of which is the literal its base type gets')
     chk.judge(aware, 'C29.quote', ceo, 'dispatch by exact type() falls back to an encoder that quotes text (%d dispatch sites)' % len(sites),
               'dispatch looks parameters up by exact type and falls back to str(val): a subclass of str is inlined unquoted and can change the statement\'s structure')
     # textual encoders that build quoted literals from arbitrary text
